@@ -10,8 +10,10 @@ Open Scope list_scope.
 (* the record used in the witnesses *)
 Definition c17_rec (i : N) : rec := mkRec 1%N i.
 
-(* the generated facts have the shape the proofs need: __exit__ = flush; close, __del__ = close, AvroWriter.close
-   flushes, SplitWriter.write rolls over on `written >= count` by flush; close; written = 0; new writer *)
+(* the generated facts have the shape the proofs need: __exit__ = flush; close, __del__ = close, AvroWriter.flush
+   does not install the placeholder-schema writer, AvroWriter.close installs it when nothing was written and flushes,
+   rotate_existing_file searches a free name, SplitWriter.write rolls over on `written >= count` by flush; close;
+   written = 0; new writer.  Undoing any of the repairs in /repo flips a fact and this no longer computes. *)
 Theorem C17_generated_shapes : shapes_ok writer_shapes = true /\ split_shapes_ok writer_shapes = true.
 Proof. split; reflexivity. Qed.
 (* the default split limit meets the hypothesis of C17_split *)
@@ -20,9 +22,18 @@ Proof. reflexivity. Qed.
 
 (* ---------------------------------------------------------------------------------------------------- *)
 (* 1. closed means durable.  For EVERY adapter, SQLite batch size and history of write / flush / close / with-exit /
-   del that contains a closing operation (anything may follow it), outside the two known-finding classes:
-   the writer is closed and the file reads back exactly the records whose write() returned normally, in order
-   (SQLite: table by table -- `expected`).  The full statement (without `excluded`) is false: see the witnesses. *)
+   del that contains a closing operation (anything may follow it): the writer is closed and the file reads back exactly
+   the records whose write() returned normally, in order (SQLite: table by table -- `expected`).
+   Full statement for JSON/CSV/line/text, Avro and SQLite: *)
+Theorem C17_closed_means_durable : forall batch k h,
+  k <> AStream -> has_close h = true ->
+  w_open (fst (run writer_shapes batch k (w_init k) h)) = false /\
+  readable (w_file (fst (run writer_shapes batch k (w_init k) h)))
+    = Some (expected k (snd (run writer_shapes batch k (w_init k) h))).
+Proof. intros batch k h. exact (closed_means_durable_nonstream writer_shapes batch k h eq_refl). Qed.
+
+(* all adapters, the stream adapter outside the one remaining known-finding class (excluded AStream h = the first
+   operation is a bare close()/del; excluded k h = false for every other adapter) *)
 Theorem C17_closed_means_durable_partial : forall batch k h,
   has_close h = true -> excluded k h = false ->
   w_open (fst (run writer_shapes batch k (w_init k) h)) = false /\
@@ -30,7 +41,7 @@ Theorem C17_closed_means_durable_partial : forall batch k h,
     = Some (expected k (snd (run writer_shapes batch k (w_init k) h))).
 Proof. intros batch k h. exact (closed_means_durable writer_shapes batch eq_refl k h). Qed.
 
-(* the full statement -- every closed history, no exclusion -- is false on the current tree *)
+(* the full statement -- every closed history of every adapter -- is false on the current tree *)
 Theorem C17_closed_means_durable_full_refuted : ~ durable_full writer_shapes.
 Proof. exact (durable_full_false writer_shapes eq_refl eq_refl). Qed.
 
@@ -46,20 +57,26 @@ Theorem C17_refuted_stream_empty_close : forall batch h, bare_close_first h = tr
   readable (w_file (fst (run writer_shapes batch AStream (w_init AStream) h))) = None.
 Proof. intros batch h. exact (stream_bare_close_fails writer_shapes batch h eq_refl eq_refl). Qed.
 
-(* finding C17-avro-flush-before-first-write: flush(); write(r1) raises; write(r2) returns normally; close():
-   the file carries the schema "empty" and one field-less datum -- r2 is lost *)
-Theorem C17_refuted_avro_flush_before_write : forall batch,
+(* what repair 73fee0f prevents (a statement about the generated facts with that repair undone: AvroWriter.flush
+   installing the placeholder writer): flush(); write(r1) raises; write(r2) returns normally; close(): the file carries
+   the schema "empty" and one field-less datum -- r2 is lost.  On the current facts the same history is harmless. *)
+Theorem C17_refuted_avro_flush_before_write_if_reverted : forall batch,
   let h := [Flush; Write (c17_rec 0); Write (c17_rec 1); Close] in
-  has_close h = true /\ excluded AAvro h = true /\
-  outcomes writer_shapes batch AAvro (w_init AAvro) h = [Ok; Raised; Ok; Ok] /\
-  snd (run writer_shapes batch AAvro (w_init AAvro) h) = [c17_rec 1] /\
-  readable (w_file (fst (run writer_shapes batch AAvro (w_init AAvro) h))) = None.
+  let sh := with_avro_unfixed writer_shapes in
+  outcomes sh batch AAvro (w_init AAvro) h = [Ok; Raised; Ok; Ok] /\
+  snd (run sh batch AAvro (w_init AAvro) h) = [c17_rec 1] /\
+  readable (w_file (fst (run sh batch AAvro (w_init AAvro) h))) = None.
+Proof. intros batch. repeat split. Qed.
+Example C17_avro_flush_before_write_now : forall batch,
+  let h := [Flush; Write (c17_rec 0); Write (c17_rec 1); Close] in
+  outcomes writer_shapes batch AAvro (w_init AAvro) h = [Ok; Ok; Ok; Ok] /\
+  readable (w_file (fst (run writer_shapes batch AAvro (w_init AAvro) h))) = Some [c17_rec 0; c17_rec 1].
 Proof. intros batch. repeat split. Qed.
 
 (* non-vacuity of the hypotheses *)
 Example C17_hyp_satisfiable :
   has_close [Write (c17_rec 0); Close] = true /\ excluded AStream [Write (c17_rec 0); Close] = false /\
-  excluded AStream [Flush; Close] = false /\ excluded AAvro [Flush; Write (c17_rec 0); Close] = false.
+  excluded AStream [Flush; Close] = false.
 Proof. repeat split. Qed.
 
 (* ---------------------------------------------------------------------------------------------------- *)
@@ -140,17 +157,19 @@ Proof. split; reflexivity. Qed.
 
 (* ---------------------------------------------------------------------------------------------------- *)
 (* 4. time-templated archiving.  ws = the records, each with the path its template yields; pre = the files that
-   exist beforehand; clock = the "now" values the rotations consume; rot_name = how a rotated name is built.
-   If no rename replaced an existing file (the log's ren_dst_existed flags), then after close(): every write
-   succeeded; the files on disk are exactly the pre-existing files plus one file per segment (maximal run of
-   consecutive records with the same path), each under its own name or a rotation of it; the segment written last
-   sits under the name the template yields; every segment file reads back its records, in order; and the segments
-   concatenate to the sequence written. *)
-Theorem C17_rotation_partial : forall batch (rot_name : path -> stamp -> path) k pre clock ws,
+   exist beforehand; clock = the "now" values the rotations consume; rot_name p s n = the rotated name of p for stamp s
+   and counter n (distinct counters give distinct names -- C17_rotated_names_distinct for the names the code builds).
+   For EVERY clock -- also one that stamps all rotations with the same second -- after close(): every write succeeded;
+   no rename replaced an existing file (the free-name search of rotate_existing_file finds a free name); the files on
+   disk are exactly the pre-existing files plus one file per segment (maximal run of consecutive records with the same
+   path), each under its own name or a rotation of it; the segment written last sits under the name the template
+   yields; every segment file reads back its records, in order; and the segments concatenate to the sequence written. *)
+Theorem C17_rotation : forall batch (rot_name : path -> stamp -> nat -> path) k pre clock ws,
+  (forall p s n m, rot_name p s n = rot_name p s m -> n = m) ->
   always_accepts k = true -> NoDup (map fst pre) ->
   let final := pt_final writer_shapes batch rot_name k pre clock ws in
-  Forall no_overwrite (p_log final) ->
   Forall (fun o => o = Ok) (snd (pt_run writer_shapes batch rot_name k (pt_init pre clock) (map pw ws))) /\
+  Forall no_overwrite (p_log final) /\
   NoDup (map fst (pt_files final)) /\
   Permutation (map snd (pt_files final))
               (map snd pre ++ map (fun sg => seg_file writer_shapes batch k (snd sg)) (segs ws)) /\
@@ -159,42 +178,37 @@ Theorem C17_rotation_partial : forall batch (rot_name : path -> stamp -> path) k
   Forall (fun sg => readable (seg_file writer_shapes batch k (snd sg)) = Some (expected k (snd sg))) (segs ws) /\
   List.concat (map snd (segs ws)) = map snd ws.
 Proof.
-  intros batch rot_name k pre clock ws Hk Hpre.
-  exact (rotation_keeps_everything writer_shapes batch eq_refl rot_name k Hk pre Hpre clock ws).
+  intros batch rot_name k pre clock ws Hinj Hk Hpre.
+  exact (rotation_keeps_everything writer_shapes batch eq_refl rot_name Hinj k Hk pre Hpre clock ws).
 Qed.
+(* the names "{fname}.{stamp}.{ext}", "{fname}.{stamp}-1.{ext}", "{fname}.{stamp}-2.{ext}", ... are pairwise distinct *)
+Theorem C17_rotated_names_distinct : forall p s n m, rot_name_py p s n = rot_name_py p s m -> n = m.
+Proof. exact rot_name_py_inj. Qed.
 
-(* a sufficient condition for that hypothesis: the rotated names are used for nothing else (no pre-existing file, no
-   template path), rot_name is injective, and the rotation stamps are pairwise distinct per path *)
-Theorem C17_rotation_distinct_stamps : forall batch (rot_name : path -> stamp -> path) k pre clock ws,
-  (forall p s p' s', rot_name p s = rot_name p' s' -> p = p' /\ s = s') ->
-  (forall p s, ~ In (rot_name p s) (map fst pre ++ map fst ws)) ->
-  NoDup (map ren_pair (p_log (pt_final writer_shapes batch rot_name k pre clock ws))) ->
-  Forall no_overwrite (p_log (pt_final writer_shapes batch rot_name k pre clock ws)).
-Proof.
-  intros batch rot_name k pre clock ws. exact (rotation_distinct_stamps writer_shapes batch rot_name k pre clock ws).
-Qed.
-
-(* finding C17-rotation-same-second: paths A B A B A, the three rotations stamped with the same second: the second
-   rotation of A replaces the first rotated file -- record 0 is in no file any more *)
+(* what repair b4f3e23 prevents (a statement about the generated facts with that repair undone: no free-name search):
+   paths A B A B A, the three rotations stamped with the same second: the second rotation of A replaces the first
+   rotated file -- record 0 is in no file any more *)
 Definition c17_A : path := "records-20200101T01.records.gz"%string.
 Definition c17_B : path := "records-20200101T02.records.gz"%string.
 Definition c17_ws : list (path * rec) :=
   [(c17_A, c17_rec 0); (c17_B, c17_rec 1); (c17_A, c17_rec 2); (c17_B, c17_rec 3); (c17_A, c17_rec 4)].
 Definition on_disk (st : pstate) (r : rec) : bool :=
   existsb (fun nf => match readable (snd nf) with Some rs => existsb (rec_eqb r) rs | None => false end) (pt_files st).
-Theorem C17_refuted_rotation_same_second :
+Theorem C17_refuted_rotation_same_second_if_reverted :
   let s := "20210505T100000"%string in
-  let final := pt_final writer_shapes 1000 rot_name_py AStream [] [s; s; s] c17_ws in
+  let final := pt_final (with_rotation_unfixed writer_shapes) 1000 rot_name_py AStream [] [s; s; s] c17_ws in
   map ren_dst_existed (p_log final) = [false; false; true] /\
   on_disk final (c17_rec 0) = false /\
   map fst (pt_files final) =
     ["records-20200101T02.20210505T100000.records.gz"; "records-20200101T01.20210505T100000.records.gz";
      "records-20200101T02.records.gz"; "records-20200101T01.records.gz"]%string.
 Proof. vm_compute. repeat split. Qed.
-(* with distinct stamps the hypothesis of C17_rotation_partial holds on the same input, and all five are on disk *)
-Example C17_rotation_hyp_satisfiable :
-  let final := pt_final writer_shapes 1000 rot_name_py AStream []
-                        ["20210505T100000"; "20210505T100001"; "20210505T100002"]%string c17_ws in
-  map ren_dst_existed (p_log final) = [false; false; false] /\
+(* the same input on the current facts: the second rotation of A gets the counter 1, all five records are on disk *)
+Example C17_rotation_same_second_now :
+  let s := "20210505T100000"%string in
+  let final := pt_final writer_shapes 1000 rot_name_py AStream [] [s; s; s] c17_ws in
+  map ren_dst (p_log final) =
+    ["records-20200101T01.20210505T100000.records.gz"; "records-20200101T02.20210505T100000.records.gz";
+     "records-20200101T01.20210505T100000-1.records.gz"]%string /\
   forallb (fun pr => on_disk final (snd pr)) c17_ws = true.
 Proof. vm_compute. split; reflexivity. Qed.
